@@ -13,7 +13,7 @@ Regs0 == [A |-> 10, F |-> 0, B |-> 0, C |-> 3, D |-> 0, E |-> 0, H |-> 0, L |-> 
           IXH |-> 80, IXL |-> 32, IYH |-> 96, IYL |-> 48, SP |-> 61440, PC |-> 256, I |-> 9, R |-> 10,
           IFF1 |-> FALSE, IFF2 |-> TRUE, IM |-> 1]
 Ctx0 == [r |-> Regs0, m |-> <<>>, dev |-> [mk |-> "hash", seed |-> 3, val |-> 0, len |-> 65536],
-         io |-> [ik |-> "hash", seed |-> 5, len |-> 0], iom |-> <<>>, nin |-> 0, rd |-> <<>>, wr |-> <<>>, pio |-> <<>>,
+         io |-> [ik |-> "hash", seed |-> 5, len |-> 0], iom |-> <<>>, nin |-> 0, seen |-> <<>>, rd |-> <<>>, wr |-> <<>>, pio |-> <<>>,
          halt |-> FALSE, hc |-> <<0, 0>>, ovl |-> NoOvl, v |-> 0, u |-> 0, ralt |-> FALSE, tag |-> "",
          pend |-> None, aei |-> FALSE, rslack |-> 0]
 
